@@ -47,7 +47,16 @@ def join(tokens):
             out.append('    ' * max(depth, 0) + ' '.join(line))
             line.clear()
     prev = ''
+    pd = 0
     for t in tokens:
+        if t in ('(', '['):
+            pd += 1
+        elif t in (')', ']'):
+            pd -= 1
+        if pd > 0 and t in (';',):
+            line.append(t)
+            prev = t
+            continue
         if t == '}':
             flush()
             depth -= 1
